@@ -5,7 +5,7 @@ from vlib import g_list
 COQ_DEPS = ['Graph/Network.vo']
 SEEDS = ['CC', 'C', 'CCC', 'C=C', 'CO', 'CCO', 'C#C', 'CC=C', 'O', 'OO', 'C1CC1', 'CC(C)C', 'C=O', '[CH3]', 'CN']
 SMARTS = ['[C:1][H:2]>>[C:1].[H:2]', '[C:1][C:2]>>[C:1].[C:2]', '[O:1][H:2]>>[O:1].[H:2]', '[C:1][O:2]>>[C:1].[O:2]',
-          '[C:1]=[C:2]>>[C:1][C:2]', '[N:1][H:2]>>[N:1].[H:2]']
+          '[C:1]=[C:2]>>[C:1][C:2]', '[N:1][H:2]>>[N:1].[H:2]', '[C:1][C:2]>>[C:1]=[C:2]']
 RING = ['rule ch{ reactant r{ C? labeled c1 H labeled h1 single bond to c1} break bond (c1,h1) increase number of radical (c1) increase number of radical (h1)}',
         'rule cc{ reactant r{ C? labeled c1 C? labeled c2 single bond to c1} break bond (c1,c2) increase number of radical (c1) increase number of radical (c2)}',
         'rule oh{ reactant r{ O? labeled o1 H labeled h1 single bond to o1} break bond (o1,h1) increase number of radical (o1) increase number of radical (h1)}',
@@ -44,6 +44,15 @@ def run(ctx):
         jobs.append({'seeds': seeds, 'rules': rules, 'timeout': 300})
     jobs.append({'seeds': ['CC'], 'rules': SMARTS[:2], 'timeout': 300})
     jobs.append({'seeds': ['CCC'], 'rules': [SMARTS[1]], 'timeout': 300})
+    # the same species produced by two different rules from one parent; a seed that is regenerated later (reachable from the
+    # other seed, or through a reversible pair of rules); one rule given twice (SMARTS and RING text)
+    jobs.append({'seeds': ['CO'], 'rules': [SMARTS[0], SMARTS[2]], 'timeout': 300})
+    jobs.append({'seeds': ['COCC'], 'rules': [SMARTS[1], SMARTS[3]], 'timeout': 300})
+    jobs.append({'seeds': ['CO'], 'rules': [RING[0], RING[2]], 'timeout': 300})
+    jobs.append({'seeds': ['[CH3]', 'CC'], 'rules': [SMARTS[1]], 'timeout': 300})
+    jobs.append({'seeds': ['C=C', 'CC'], 'rules': [SMARTS[0], SMARTS[6]], 'timeout': 300})
+    jobs.append({'seeds': ['C=C'], 'rules': [SMARTS[4], SMARTS[6]], 'timeout': 300})
+    jobs.append({'seeds': ['C'], 'rules': [SMARTS[0], RING[0]], 'timeout': 300})
     res = vlib.run_impl_sharded('net', jobs, timeout=3000)
     rows = []
     hist = {'networks': 0, 'species_total': 0, 'skipped_capped': 0, 'max_species': 0}
